@@ -586,11 +586,19 @@ fn handle_parse_node<Data: GarnishData>(
                 BuildNodeState::Uninitialized => {
                     node.state = BuildNodeState::Initialized;
 
+                    let containing = node.containing_expression_jump.clone();
+
                     stack.push(node.parse_node_index);
                     let right = parse_node.get_right().ok_or(CompilerError::new_message("No left on Reapply definition".to_string()))?;
                     stack.push(right);
 
-                    nodes[right] = Some(BuildNode::new(right, node.containing_expression_jump.clone()));
+                    nodes[right] = Some(BuildNode::new(right, containing.clone()));
+
+                    // a side-effect block written before the operator is evaluated first
+                    if let Some(left) = parse_node.get_left() {
+                        stack.push(left);
+                        nodes[left] = Some(BuildNode::new(left, containing));
+                    }
                 }
                 BuildNodeState::Initialized => {
                     data.push_instruction(Instruction::UpdateValue, None)?;
@@ -712,10 +720,20 @@ fn handle_unary_fix_apply<Data: GarnishData>(
 
                 let right = child.ok_or(CompilerError::new_message(format!("No right on {:?} definition", definition)))?;
 
+                let containing = node.containing_expression_jump.clone();
+
                 stack.push(node_index);
                 stack.push(right);
 
-                nodes[right] = Some(BuildNode::new(right, node.containing_expression_jump.clone()));
+                nodes[right] = Some(BuildNode::new(right, containing.clone()));
+
+                // a side-effect block written before a prefix apply is evaluated before the operand
+                if definition == Definition::PrefixApply {
+                    if let Some(left) = parse_node.get_left() {
+                        stack.push(left);
+                        nodes[left] = Some(BuildNode::new(left, containing));
+                    }
+                }
             }
             BuildNodeState::Initialized => {
                 data.push_instruction(Instruction::Apply, None)?;
